@@ -178,14 +178,12 @@ def names(k):
     return None if k == 0 else (["a"] if k == 1 else ["a", "zz"])
 def validate(df, bodies, hdr, fig=None, fnt=False, srt=False):
     me = NS.of(RTFDocument, df=df, rtf_figure=fig, rtf_body=bodies, rtf_footnote=NS(as_table=fnt), rtf_source=NS(as_table=srt), rtf_column_header=hdr)
-    me._validate_section_columns = lambda d, b, i: RTFDocument._validate_section_columns(me, d, b, i)
     return outcome(lambda: RTFDocument.validate_column_names(me))
 OKBODY = NS(group_by=None, page_by=None, subline_by=None)
 ''', timeout=T,
         body=r'''
     me = NS.of(RTFDocument, df=NS(columns=COLS) if has_df else None, rtf_figure=NS() if has_fig else None, rtf_body=OKBODY,
             rtf_footnote=NS(as_table=fnt) if has_fn else None, rtf_source=NS(as_table=srt) if has_src else None, rtf_column_header=[NS()])
-    me._validate_section_columns = lambda d, b, i: RTFDocument._validate_section_columns(me, d, b, i)
     got = outcome(lambda: RTFDocument.validate_column_names(me))
     legal = has_df != has_fig
     if legal and has_fig:
@@ -203,7 +201,6 @@ def names(k):
     return None if k == 0 else (["a"] if k == 1 else ["a", "zz"])
 def validate(df, bodies, hdr, fig=None, fnt=False, srt=False):
     me = NS.of(RTFDocument, df=df, rtf_figure=fig, rtf_body=bodies, rtf_footnote=NS(as_table=fnt), rtf_source=NS(as_table=srt), rtf_column_header=hdr)
-    me._validate_section_columns = lambda d, b, i: RTFDocument._validate_section_columns(me, d, b, i)
     return outcome(lambda: RTFDocument.validate_column_names(me))
 OKBODY = NS(group_by=None, page_by=None, subline_by=None)
 ''', timeout=T,
@@ -226,7 +223,6 @@ def names(k):
     return None if k == 0 else (["a"] if k == 1 else ["a", "zz"])
 def validate(df, bodies, hdr, fig=None, fnt=False, srt=False):
     me = NS.of(RTFDocument, df=df, rtf_figure=fig, rtf_body=bodies, rtf_footnote=NS(as_table=fnt), rtf_source=NS(as_table=srt), rtf_column_header=hdr)
-    me._validate_section_columns = lambda d, b, i: RTFDocument._validate_section_columns(me, d, b, i)
     return outcome(lambda: RTFDocument.validate_column_names(me))
 OKBODY = NS(group_by=None, page_by=None, subline_by=None)
 ''', timeout=T,
